@@ -54,8 +54,13 @@ type ScriptRule struct {
 	HookExit      *int    `json:"hook_exit,omitempty"`
 	HookVoluntary *bool   `json:"hook_voluntary,omitempty"`
 	HookSilent    bool    `json:"hook_silent,omitempty"`
-	Times         int     `json:"times,omitempty"` // apply only the first N matches (0 = always)
-	used          int
+	// HookLateMs (with hook_silent): the hook process does end - that long after the trigger, i.e. after the core's hook
+	// timeout - and the executor reports it (device event only, as the real executor does when a process exits)
+	HookLateMs int `json:"hook_late_ms,omitempty"`
+	// HookEarly: the hook process is so short-lived that its termination is reported BEFORE the trigger command is answered
+	HookEarly bool `json:"hook_early,omitempty"`
+	Times     int  `json:"times,omitempty"` // apply only the first N matches (0 = always)
+	used      int
 }
 
 type HookBehaviour struct {
@@ -496,18 +501,20 @@ func (r *Runner) installScripts() {
 		}
 		return ""
 	}
-	r.Master.HookScript = func(t *SimTask) (int, bool, bool) {
-		if ru := find(t, func(x *ScriptRule) bool { return x.HookExit != nil || x.HookVoluntary != nil || x.HookSilent }); ru != nil {
-			exit, vol := 0, true
+	r.Master.HookScript = func(t *SimTask) HookPlan {
+		if ru := find(t, func(x *ScriptRule) bool {
+			return x.HookExit != nil || x.HookVoluntary != nil || x.HookSilent || x.HookEarly
+		}); ru != nil {
+			p := HookPlan{Exit: 0, Voluntary: true, Respond: !ru.HookSilent, LateMs: ru.HookLateMs, Early: ru.HookEarly}
 			if ru.HookExit != nil {
-				exit = *ru.HookExit
+				p.Exit = *ru.HookExit
 			}
 			if ru.HookVoluntary != nil {
-				vol = *ru.HookVoluntary
+				p.Voluntary = *ru.HookVoluntary
 			}
-			return exit, vol, !ru.HookSilent
+			return p
 		}
-		return 0, true, true
+		return HookPlan{Voluntary: true, Respond: true}
 	}
 }
 
